@@ -1170,7 +1170,7 @@ func c19Timers(c *Ctx) {
 			c.Ok(name, pos, fmt.Sprintf("%d timer instances over %d paths: each fired (received) or stopped", timers, len(ps)))
 		}
 	}
-	c.Floor("functions creating timers", n, 5)
+	c.Floor("functions creating timers", n, 2)
 }
 
 // c19ChildContexts: every cancellable context the library derives for an execution must be released (its cancel
@@ -1213,7 +1213,7 @@ func c19ChildContexts(c *Ctx) {
 			}
 		}
 	}
-	c.Floor("context derivation sites", n, 3)
+	c.Floor("context derivation sites", n, 2)
 	tab := c.ExecTable()
 	// Timeout: the child copy must be cancelled on every returning path
 	if info := tab["timeout"]; info == nil || info.Slots["Apply"] == nil {
